@@ -224,6 +224,9 @@ class SInt:
     def __invert__(self): return (-self) - 1
 
     def __mul__(self, o):
+        if isinstance(o, float):
+            from sxl.sfloat import SDyad
+            return SDyad(self, 0) * o
         if isinstance(o, (SInt, Bit)):
             o = SInt.of(o)
             if not o.terms:
